@@ -101,6 +101,18 @@ def cvn_scenario(pool, g, cls=None, bad=0.05):
     m = R.randrange(7)
     if m == 0:
         return cvn_case(pool, s, "keys", None, "cvn keys")
+    if R.random() < .4 and len(atc) == 2 and len(arqc) == 8:
+        # field values as real traffic carries them (BCD amounts, IAD layouts zero-filled to the field, status updates)
+        T = gens.traffic
+        if m in (1, 6):
+            f = T.ac_fields(R); f[7] = un; f[9] = atc if R.random() < .5 else f[9]
+            return cvn_case(pool, s, "ac", (f, T.iad(R), T.counters(R)), "cvn generate_ac, realistic fields")
+        if m == 2:
+            return cvn_case(pool, s, "arpc", (arqc, atc, un, T.arpc_rc(R), T.csu(R), T.prop_auth(R)), "cvn generate_arpc, realistic fields")
+        if m == 3:
+            return cvn_case(pool, s, "mac", (T.script_header(R), arqc, atc, T.command_data(R)), "cvn command mac, realistic fields")
+        if m == 4:
+            return cvn_case(pool, s, "enc", (T.command_data(R), arqc, atc), "cvn encrypt, realistic fields")
     if m in (1, 6):
         f = [R.randbytes(6), R.randbytes(6), R.randbytes(2), R.randbytes(5), R.randbytes(2), R.randbytes(3), R.randbytes(1), un, R.randbytes(2), atc]
         tail = R.randbytes(R.choice([4, 6, 7, 8, 16, 32])); cnt = R.randbytes(R.choice([8, 16]))
@@ -337,6 +349,9 @@ def C11(ctx):
     for _ in range(ctx.n(800, 8000)):
         t = R.choice(tracks + g.msgs)
         cases.append(op_cvc3(g.key(), t, R.randbytes(2), R.randbytes(4), gen="shared templates × pooled keys"))
+    # templates as cards carry them: track 2 equivalent data in BCD (bare, or inside tag 57 / 9F6B), track 1 in ASCII
+    for _ in range(ctx.n(1500, 12000)):
+        cases.append(op_cvc3(g.key(), gens.traffic.track_template(R), gens.traffic.atc(R), R.randbytes(4), gen="realistic track templates"))
     # steer towards small final values: search UN for values below 10000 / 1000 / 100 / 10 / 0
     for _ in range(ctx.n(150, 1500)):
         k = g.key(); t = R.choice(tracks + [g.msg()]); atc = R.randbytes(2)
